@@ -24,6 +24,9 @@ package resourcepack
 //@ func (*legacyHandler).tickResourcePackQueueLocked
 //@   props C27
 //@   requires held(h.rwMutex) == wlocked
+//@   at-call Protocol as pv
+//@   at-call GreaterEqual as ge: assert [gate-is-1.17] called(pv) && arg0 == res(pv) && arg1 == version.Minecraft_1_17
+//@   at-call onResourcePackResponseLocked as decl: assert [forced-on-1.17+-is-prompted-not-declined] !queued.ShouldForce || (called(ge) && res(pv) < version.Minecraft_1_17.Protocol)
 //@   at-call onResourcePackResponseLocked as decl: assert [auto-decline-only-after-a-decline] h.hasPrevResourceResponse && !h.prevResourceResponse && arg0 == h && arg1.Status == DeclinedResponseStatus && arg1.ID == queued.ID
 //@   at-call SendResourcePackRequestPacket as send: assert [prompt-under-lock] arg0 == h && arg1 == queued && held(h.rwMutex) == wlocked
 //@   loop 1: invariant h.hasPrevResourceResponse && !h.prevResourceResponse && held(h.rwMutex) == wlocked && old(h.hasPrevResourceResponse) && !old(h.prevResourceResponse)
